@@ -86,6 +86,9 @@ NAME = {'circle': 'CirclePixelRegion', 'ellipse': 'EllipsePixelRegion', 'rectang
 
 
 # ===================================================================== lattice ==
+ENCODINGS = ['cdelt_pc', 'cd', 'pc_flip']
+
+
 def wcs_specs(tier, seed):
     out = []
     for ip, proj in enumerate(PROJS):
@@ -96,8 +99,15 @@ def wcs_specs(tier, seed):
                         cvs = [CRVALS[(ip + ir + isc + ifr + seed) % len(CRVALS)]]
                     else:
                         cvs = CRVALS
-                    for cv in cvs:
-                        out.append(W.wspec(proj, rot, sc, False, fr, cv))
+                    for icv, cv in enumerate(cvs):
+                        # the same linear transformation written into the header in three ways (quick: one of them per
+                        # WCS, cyclically; thorough: all three)
+                        encs = [ENCODINGS[(ip + 2 * ir + isc + ifr + icv + seed) % 3]] if tier == 'quick' else ENCODINGS
+                        for enc in encs:
+                            ws = W.wspec(proj, rot, sc, False, fr, cv)
+                            if enc != 'cdelt_pc':
+                                ws['enc'] = enc
+                            out.append(ws)
     return out
 
 
@@ -206,10 +216,15 @@ def check_config(res, spec, off, ws):
 
     sky = build_sky(spec, c, scale)
     if wcs_route == 'modified_in_place':
-        keep_pc, keep_cdelt = w.wcs.pc.copy(), w.wcs.cdelt.copy()
-        t = math.radians(ws['rot'] + 47.0)
-        w.wcs.pc = [[math.cos(t), -math.sin(t)], [math.sin(t), math.cos(t)]]
-        w.wcs.cdelt = keep_cdelt * 1.9
+        t = math.radians(47.0)
+        rot47 = np.array([[math.cos(t), -math.sin(t)], [math.sin(t), math.cos(t)]])
+        if w.wcs.has_cd():
+            keep = w.wcs.cd.copy()
+            w.wcs.cd = 1.9 * keep @ rot47
+        else:
+            keep_pc, keep_cdelt = w.wcs.pc.copy(), w.wcs.cdelt.copy()
+            w.wcs.pc = keep_pc @ rot47
+            w.wcs.cdelt = keep_cdelt * 1.9
         w.wcs.set()
         try:
             with warnings.catch_warnings():
@@ -217,8 +232,11 @@ def check_config(res, spec, off, ws):
                 sky.to_pixel(w)
         except Exception:
             pass
-        w.wcs.pc = keep_pc
-        w.wcs.cdelt = keep_cdelt
+        if w.wcs.has_cd():
+            w.wcs.cd = keep
+        else:
+            w.wcs.pc = keep_pc
+            w.wcs.cdelt = keep_cdelt
         w.wcs.set()
     res.transitions += 1
     try:
